@@ -655,7 +655,15 @@ func runC09(e *Env) {
 					// the failure region returns the errno as error
 					good := true
 					nret := 0
-					for b := range flow.Region(ifi.Block(), fail) {
+					reg := flow.Region(ifi.Block(), fail)
+					gs := flow.G(s.fn)
+					for b := range reg {
+						// nothing leaves the region: `e != 0 && e != X` lets errno X fall through to the success path
+						for _, sx := range gs.Succs(b) {
+							if !reg[sx] {
+								good = false
+							}
+						}
 						if ret, ok := b.Instrs[len(b.Instrs)-1].(*ssa.Return); ok {
 							nret++
 							last := flow.RetResults(ret)[len(flow.RetResults(ret))-1]
@@ -686,13 +694,26 @@ func runC09(e *Env) {
 					}
 				}
 				for _, ec := range flow.FindErrChecks(hc) {
-					for b := range flow.Region(ec.If.Block(), ec.Fail) {
+					reg := flow.Region(ec.If.Block(), ec.Fail)
+					gs := flow.G(s.fn)
+					leak, found := false, false
+					for b := range reg {
+						for _, sx := range gs.Succs(b) {
+							if !reg[sx] {
+								leak = true
+							}
+						}
 						if ret, ok := b.Instrs[len(b.Instrs)-1].(*ssa.Return); ok {
 							last := flow.RetResults(ret)[len(flow.RetResults(ret))-1]
 							if last == ssa.Value(hc) || flow.KnownNonNilError(last, b) {
-								okErr = true
+								found = true
+							} else {
+								leak = true
 							}
 						}
+					}
+					if found && !leak {
+						okErr = true
 					}
 				}
 			}
